@@ -20,15 +20,28 @@ bool stepA(Reg& r, const AOp& op) {
 }
 std::string keyA(const Reg& r) { return std::to_string(r.v); }
 
-template<class M>
+// payload variants: the instrumented Tracked; a trivially copyable type whose operator== is coarser than its object representation
+// (a field that equality ignores); and double, where -0.0 == 0.0.  "Equal" in the property means operator==.
+struct Keyed { int key; int hint; bool operator==(const Keyed& o) const { return key == o.key; } bool operator!=(const Keyed& o) const { return !(*this == o); } };
+static_assert(std::is_trivially_copyable<Keyed>::value, "Keyed is trivially copyable");
+template<class P> struct PT;
+template<> struct PT<Tracked> { static Tracked make(int v, int) { return Tracked((uint64_t)v); } static int id(const Tracked& t) { return (int)t.peek(); } static constexpr const char* name = "Tracked"; };
+template<> struct PT<Keyed> { static Keyed make(int v, int salt) { return Keyed{v, salt}; } static int id(const Keyed& k) { return k.key; } static constexpr const char* name = "Keyed(trivially copyable, == ignores a field)"; };
+template<> struct PT<double> { static double make(int v, int salt) { return v == 0 ? ((salt & 1) ? -0.0 : 0.0) : (double)v; } static int id(const double& d) { return (int)d; } static constexpr const char* name = "double(+-0.0)"; };
+
+template<class M, class P = Tracked>
 vh::Outcome run_atomic(const vh::Case& c, bool concurrent) {
+    using T = PT<P>;
     reset_case_globals();
     vh::Outcome out;
     std::vector<AOp> hist; std::vector<vlin::Interval> iv;
     bool faults = c.sched.fault_k != 0;
     int in_flight = 0; bool overlap = false, rmw_overlap = false;
     out.res = vrt::run(c.sched, [&] {
-        std::unique_ptr<lg::atomic_guarded<Tracked, M>> agp(ctor_from_rvalue(c) ? new lg::atomic_guarded<Tracked, M>(Tracked(uint64_t(0))) : new lg::atomic_guarded<Tracked, M>(uint64_t(0)));
+        std::unique_ptr<lg::atomic_guarded<P, M>> agp;
+        if constexpr (std::is_same<P, Tracked>::value) { if (!ctor_from_rvalue(c)) agp.reset(new lg::atomic_guarded<P, M>(uint64_t(0))); }
+        if (!agp) agp.reset(new lg::atomic_guarded<P, M>(T::make(0, 0)));
+        int salt = 0;
         auto& ag = *agp;
         auto run_ops = [&](const std::vector<vh::Op>& ops) {
             for (auto& o : ops) {
@@ -39,12 +52,12 @@ vh::Outcome run_atomic(const vh::Case& c, bool concurrent) {
                 bool threw = false;
                 try {
                     switch (op.kind) {
-                        case A_LOAD: { Tracked t = ag.load(); op.rv = (int)t.peek(); break; }
-                        case A_CAST: { Tracked t = static_cast<Tracked>(ag); op.rv = (int)t.peek(); break; }
-                        case A_STORE: { Tracked nv((uint64_t)op.v); ag.store(nv); break; }
-                        case A_ASSIGN: { Tracked nv((uint64_t)op.v); ag = nv; break; }
-                        case A_EXCHANGE: { Tracked old = ag.exchange(Tracked((uint64_t)op.v)); op.rv = (int)old.peek(); break; }
-                        default: { Tracked e((uint64_t)op.exp); Tracked d((uint64_t)op.v); op.rbool = ag.compare_exchange(e, d); op.rexp = (int)e.peek(); break; }
+                        case A_LOAD: { P t = ag.load(); op.rv = T::id(t); break; }
+                        case A_CAST: { P t = static_cast<P>(ag); op.rv = T::id(t); break; }
+                        case A_STORE: { P nv = T::make(op.v, ++salt); ag.store(nv); break; }
+                        case A_ASSIGN: { P nv = T::make(op.v, ++salt); ag = nv; break; }
+                        case A_EXCHANGE: { P old = ag.exchange(T::make(op.v, ++salt)); op.rv = T::id(old); break; }
+                        default: { P e = T::make(op.exp, ++salt); P d = T::make(op.v, ++salt); op.rbool = ag.compare_exchange(e, d); op.rexp = T::id(e); break; }
                     }
                 } catch (const vrt::InjectedFault&) {
                     if (!faults) vrt::fail("escaped-fault", "fault without a plan");
@@ -63,7 +76,7 @@ vh::Outcome run_atomic(const vh::Case& c, bool concurrent) {
             vrt::join_all();
         }
         vrt::disable_faults();
-        { AOp op; op.kind = A_LOAD; long call = vrt::now_step(); Tracked t = ag.load(); op.rv = (int)t.peek(); hist.push_back(op); iv.push_back({call, vrt::now_step()}); }
+        { AOp op; op.kind = A_LOAD; long call = vrt::now_step(); P t = ag.load(); op.rv = T::id(t); hist.push_back(op); iv.push_back({call, vrt::now_step()}); }
         if (!faults) {
             Reg init;
             bool ok;
@@ -75,13 +88,20 @@ vh::Outcome run_atomic(const vh::Case& c, bool concurrent) {
     if (overlap) out.labels.push_back("calls-overlapped");
     if (rmw_overlap) out.labels.push_back("write-overlapped");
     if (out.res.faults_fired) out.labels.push_back("fault-fired");
+    out.labels.push_back(std::string("T=") + T::name);
     out.nontrivial = faults ? out.res.faults_fired > 0 : (concurrent ? rmw_overlap : hist.size() >= 4);
     return out;
 }
-vh::Outcome disp(const vh::Case& c, bool conc) { return (!c.cfg.empty() && c.cfg[0] % 2) ? run_atomic<vstd::timed_mutex>(c, conc) : run_atomic<vstd::mutex>(c, conc); }
+vh::Outcome disp(const vh::Case& c, bool conc) {
+    int pay = (c.sched.fault_k || c.cfg.size() < 2) ? 0 : c.cfg[1] % 4;       // half Tracked, a quarter each Keyed and double (fault plans need the instrumented payload)
+    bool timed = !c.cfg.empty() && c.cfg[0] % 2;
+    if (pay == 2) return timed ? run_atomic<vstd::timed_mutex, Keyed>(c, conc) : run_atomic<vstd::mutex, Keyed>(c, conc);
+    if (pay == 3) return timed ? run_atomic<vstd::timed_mutex, double>(c, conc) : run_atomic<vstd::mutex, double>(c, conc);
+    return timed ? run_atomic<vstd::timed_mutex>(c, conc) : run_atomic<vstd::mutex>(c, conc);
+}
 
 vh::GenSpec spec(bool conc, bool th, bool faults = false) {
-    vh::GenSpec g; g.sequential = !conc; g.nfibers = conc ? 3 : 1; g.max_ops = conc ? (th ? 6 : 4) : (th ? 24 : 12); g.ncodes = A_NK; g.amax = 3; g.bmax = 4; g.cfg_max = {2};
+    vh::GenSpec g; g.sequential = !conc; g.nfibers = conc ? 3 : 1; g.max_ops = conc ? (th ? 6 : 4) : (th ? 24 : 12); g.ncodes = A_NK; g.amax = 3; g.bmax = 4; g.cfg_max = {2, 4};
     g.sched_len = 128; g.aux_len = 8;
     if (faults) { g.fault_max = 10; g.fault_mask = vrt::F_COPY | vrt::F_ASSIGN | vrt::F_COMPARE; }
     return g;
